@@ -1157,6 +1157,20 @@ def _is_pure_small(prog, body):
     return True
 
 
+def _closure_on(clo, arg):
+    """return term of a closure (found in any loaded program) applied to one argument"""
+    from . import mir as _m
+    for pr in _m.PROGRAMS:
+        cb = pr.bodies.get(clo[1])
+        if cb is not None:
+            caps = {n: v for _, n, v in clo[2]}
+            rt = Terms(cb, captures=caps, params={2: arg}).return_term()
+            if contains(rt, lambda s_: s_[0] in ("cycle", "undef")):
+                return None
+            return rt
+    return None
+
+
 def ok_payload(t, tag="Ok/Some"):
     """the Ok / Some payload of a Result / Option valued term: looks through `?`, drops the
     alternatives that are certainly Err / None (they do not reach the use of the payload)."""
@@ -1176,6 +1190,27 @@ def ok_payload(t, tag="Ok/Some"):
 
     flat(t)
     out = []
+    if tag == "Ok/Some":
+        # combinators whose Ok/Some payload is determined by their receiver's payload
+        alts2 = []
+        for a in alts:
+            if a[0] == "call" and a[1] in ("std::option::Option::ok_or", "std::option::Option::ok_or_else", "std::result::Result::map_err", "std::result::Result::ok", "std::result::Result::or_else") and a[2]:
+                alts2.append(("__payload_of__", a[2][0]))
+            elif a[0] == "call" and a[1] in ("std::option::Option::map", "std::result::Result::map") and len(a[2]) == 2 and a[2][1][0] == "closure":
+                r = _closure_on(a[2][1], ok_payload(a[2][0]))
+                alts2.append(("__value__", r) if r is not None else a)
+            else:
+                alts2.append(a)
+        if any(x[0] in ("__payload_of__", "__value__") for x in alts2):
+            vals = []
+            for x in alts2:
+                if x[0] == "__payload_of__":
+                    vals.append(ok_payload(x[1]))
+                elif x[0] == "__value__":
+                    vals.append(x[1])
+                else:
+                    vals.append(ok_payload(x))
+            return intern(Terms._phi(vals))
     if tag != "Ok/Some":
         # payload of a user enum variant: (x as Variant).0
         for a in alts:
